@@ -213,9 +213,10 @@ def run(ctx):
                 pstep[S[nxt0]] = ({inv[ix]: c for ix, c in legs}, sz_, cp.flops - f0)
             cases_proc.append(("proc%d" % ci,
                                "(proc_obs ({I} {n} true), (proc_obs (proc_simplify_single ({I} {n} true)), "
-                               "proc_replay (proc_simplify_single ({I} {n} true)) {p}))".format(
+                               "(proc_replay (proc_simplify_single ({I} {n} true)) {p}, "
+                               "proc_edges_ok_b ({I} {n} true))))".format(
                                    n=netl, p=coq(ppath), I=PINIT),
-                               coq((obs0, obs1, prow))))
+                               coq((obs0, obs1, prow, True))))
 
             # scripted run of the simplify passes followed by random contractions
             cp2 = pb.ContractionProcessor(inputs, output, size_dict, track_flops=True)
@@ -349,7 +350,7 @@ def run(ctx):
     for name, imports, cases, what in (
             ("c18_tree", ["Simulators"], cases_tree, "Model/Net.v node_table vs ContractionTree getters"),
             ("c18_anneal", ["Simulators"], cases_ann, "Model/Simulators.v anneal_rows vs compute_contracted_info"),
-            ("c18_proc", ["Simulators"], cases_proc,
+            ("c18_proc", ["Simulators", "SimulatorsFacts"], cases_proc,
              "Model/Simulators.v proc_init/proc_simplify_single/proc_replay vs ContractionProcessor"),
             ("c18_script", ["Simulators"], cases_script,
              "Model/Simulators.v proc_trace vs ContractionProcessor simplify_batch/single_terms/scalars/contract_nodes"),
